@@ -25,7 +25,7 @@ STUB = ["peer = scripted reference peer replying at exact virtual instants (ref/
 ASSUMPTIONS = ["'reply arrives' is read as 'reply is processed by the client thread' (ready/error serve at most one pending message per "
                "query, so they may lag; they must never run ahead and never go back)",
                "exact ties between an arrival and an expiry, and negative timeouts, are not generated in the exact-model runs"]
-PROBES = ["c15:timeout-raised", "c15:late-reply-discarded", "c15:callback-after-ready", "c15:busy-delayed-timeout"]
+PROBES = ["c15:timeout-raised", "c15:late-reply-discarded", "c15:callback-after-ready", "c15:busy-delayed-timeout", "c15:timed-wrapper-reused"]
 
 E8 = 0.125
 
@@ -133,6 +133,7 @@ def run_one(choices, params):
     obs = []
     cblog = []
     info = {"finals": {}, "timeouts": 0, "late": 0}
+    pre_timed = bool(w.draw(2))
 
     def main(sim, k):
         from rpyc.core.channel import Channel
@@ -202,6 +203,12 @@ def run_one(choices, params):
             return cbf
 
         ncb = [0]
+        # timed() wrappers are made once and used again later, as applications do (half of the runs make them at start-up)
+        tw = {}
+        if pre_timed:
+            for r in reqs:
+                if r["kind"] == "timed" and r["to"] not in tw:
+                    tw[r["to"]] = rpyc.timed(f, r["to"])
         for t, _, what, i, arg in actions:
             if t > sim.now:
                 sim.sleep(t - sim.now)
@@ -214,7 +221,11 @@ def run_one(choices, params):
                         res[i] = af(i)
                         res[i].set_expiry(r["to"])
                     elif r["kind"] == "timed":
-                        res[i] = rpyc.timed(f, r["to"])(i)
+                        if r["to"] not in tw:
+                            tw[r["to"]] = rpyc.timed(f, r["to"])
+                        else:
+                            sim.count("c15:timed-wrapper-reused")
+                        res[i] = tw[r["to"]](i)
                     else:
                         try:
                             out = ("value", f(i))
